@@ -135,7 +135,7 @@ def run_config(ctx, binary, cfg, nruns, rng, obs_kinds, fee_cases):
     if len(kinds) < 3:
         raise vflib.InfraError("vacuity: the model (%s) never returns %s" % (cfg, set(KINDS) - set(kinds)))
     strict = None
-    if ctx.tier != "quick":
+    if ctx.tier != "quick" and os.path.exists(os.path.join(vflib.SPECS, SPEC, cfg[:-4] + "_strict.cfg")):
         # the strict model (exactly the code's choices) refines the permissive one; it only serves to count how often the code's
         # observable behaviour differs from the modelled design (information, never a verdict)
         strict = load_allowed(ctx, cfg[:-4] + "_strict.cfg", "strict_" + cfg[:-4])
